@@ -564,7 +564,9 @@ func c16Exec(r *vfRun) {
 		if v != nil && v.fs != nil {
 			dir = "/dd"
 			v.fs.mu.Lock()
-			v.fs.nodes["/dd"] = &sfNode{kind: 'd', mode: os.ModeDir | 0o755, mtime: 946684800}
+			// (the directory has an owner and times of its own: they travel with the "." and ".." entries some listers report,
+			// and belong to no other entry)
+			v.fs.nodes["/dd"] = &sfNode{kind: 'd', mode: os.ModeDir | 0o755, mtime: 1234567890, uid: 4242, gid: 4343}
 			names := c16Names(n, int(sc.cfg("names", 0)), sc.Seed)
 			for i, name := range names {
 				nd := &sfNode{kind: 'f', data: make([]byte, i%90), mode: os.FileMode(0o400 + i%256), mtime: 1000000000 + int64(i)*3, uid: uint32(1000 + i), gid: uint32(i)}
